@@ -651,6 +651,185 @@ def worker_job(item, tier):
             "samples": [{"bare_worker": wn, "depth": depth, "states": len(seen)}]}
 
 
+# ----------------------------------------------------------------------- profiles
+PROFILES = {
+    # name: (demand, loading time)
+    "P1": ({("GPU", "any"): 1}, 2),
+    "P2": ({("CPU", "any"): 1}, 2),
+    "P3": ({("CPU", "any"): 1}, 1),
+}
+
+
+def profiles_job(item, tier):
+    """BFS on one bare Worker with *several* work profiles: load / evict / step(1|2) in
+    every order, so that loads overlap, complete in the same step, are evicted while
+    pending or at the instant they complete.  Reference: per profile (pending with
+    remaining time | available | absent) and the ledger of what the resident profiles
+    hold."""
+    from .. import bootstrap  # noqa: F401
+    from utils import EventTime
+    from workers import Worker
+    from workload import (ExecutionStrategies, ExecutionStrategy, Resource, Resources,
+                          WorkProfile)
+
+    depth = item[1]
+    wn = "W1"
+    US = EventTime.Unit.US
+    out = []
+    stats = {"profile_loads": 0, "profile_evictions_while_pending": 0,
+             "profile_simultaneous_completions": 0, "profile_refusals": 0}
+
+    def fresh():
+        import random
+
+        random.seed(4)
+        wk = Worker(wn, Resources({Resource(n, i): q for n, i, q in WORKERS[wn]}))
+        profs = {}
+        for pn, (dem, rt) in PROFILES.items():
+            ls = ExecutionStrategy(
+                Resources({Resource(n, i): q for (n, i), q in dem.items()}), 1,
+                EventTime(rt, US))
+            profs[pn] = (WorkProfile(pn, ExecutionStrategies([]),
+                                     ExecutionStrategies([ls])), ls)
+        return wk, profs, {}
+
+    def observe(wk, profs):
+        per = []
+        for n in sorted(set(n for n, _i, _q in WORKERS[wn])):
+            x = Resource(n, "any")
+            per.append((n, wk.resources.get_available_quantity(x),
+                        wk.resources.get_allocated_quantity(x)))
+        av = wk.get_available_profiles()
+        pe = wk.get_pending_profiles()
+        st = tuple((pn, profs[pn][0] in av, profs[pn][0] in pe,
+                    wk.is_available(profs[pn][0]).time) for pn in sorted(profs))
+        return (tuple(per), st)
+
+    def apply(wk, profs, ref, op, bad):
+        before = observe(wk, profs)
+        if op[0] == "load":
+            pn = op[1]
+            dem, rt = PROFILES[pn]
+            fit = all(wk.resources.get_available_quantity(Resource(n, i)) >= q
+                      for (n, i), q in dem.items())
+            exc = None
+            try:
+                wk.load_profile(profs[pn][0], profs[pn][1])
+            except Exception as e:  # noqa: B902
+                exc = e
+            if exc is None:
+                if not fit:
+                    bad("load.accepted_unfit", f"{op}: accepted without room")
+                ref[pn] = [rt, "pending"]
+                stats["profile_loads"] += 1
+            else:
+                stats["profile_refusals"] += 1
+                if fit:
+                    bad("load.refused_fit", f"{op}: raised {type(exc).__name__} although "
+                                            f"it fits")
+                if observe(wk, profs) != before:
+                    bad("refusal.changed_state", f"{op}: refused but observables changed")
+        elif op[0] == "evict":
+            pn = op[1]
+            if ref[pn][1] == "pending":
+                stats["profile_evictions_while_pending"] += 1
+            try:
+                wk.evict_profile(profs[pn][0])
+            except Exception as e:  # noqa: B902
+                bad("evict.raises", f"{op}: raised {type(e).__name__}")
+            ref.pop(pn, None)
+        else:
+            dt = op[1]
+            wk.step(EventTime(0, US), EventTime(dt, US))
+            done = 0
+            for pn, pr in ref.items():
+                if pr[1] == "pending":
+                    pr[0] -= dt
+                    if pr[0] <= 0:
+                        pr[0], pr[1] = 0, "available"
+                        done += 1
+            if done >= 2:
+                stats["profile_simultaneous_completions"] += 1
+        o = observe(wk, profs)
+        used = {}
+        for pn in ref:
+            for (n, _i), q in PROFILES[pn][0].items():
+                used[n] = used.get(n, 0) + q
+        tot = total_by_name(wn)
+        for n, av, al in o[0]:
+            if av != tot[n] - used.get(n, 0):
+                bad("ledger.available", f"{n}: available {av}, reference {tot[n]} - "
+                                        f"{used.get(n, 0)} held by resident profiles "
+                                        f"{sorted(ref)}")
+            if av + al != tot[n]:
+                bad("ledger.sum", f"{n}: {av} + {al} != {tot[n]}")
+        for pn, is_av, is_pe, tm in o[1]:
+            pr = ref.get(pn)
+            exp = (False, False, -1) if pr is None else (
+                (True, False, 0) if pr[1] == "available" else (False, True, pr[0]))
+            if (is_av, is_pe, tm) != exp:
+                bad("profile.state", f"{pn}: (available, pending, time)="
+                                     f"{(is_av, is_pe, tm)}, reference {exp}")
+
+    def build(hist, bad=None):
+        wk, profs, ref = fresh()
+        sink = bad or (lambda *a, **k: None)
+        for op in hist:
+            apply(wk, profs, ref, op, sink)
+        return wk, profs, ref
+
+    def enabled(ref):
+        ops = []
+        for pn in sorted(PROFILES):
+            ops.append(("evict", pn) if pn in ref else ("load", pn))
+        if any(v[1] == "pending" for v in ref.values()):
+            ops += [("step", 1), ("step", 2)]
+        return ops
+
+    wk, profs, ref = build(())
+    seen = {(observe(wk, profs), ())}
+    frontier = [()]
+    transitions = 0
+    for _d in range(depth):
+        nxt = []
+        for hist in frontier:
+            _w, _p, ref = build(hist)
+            for op in enabled(ref):
+                h2 = hist + (op,)
+
+                def bad(rule, msg, h2=h2):
+                    if len(out) < 25:
+                        out.append({"rule": rule,
+                                    "msg": f"profiles history {list(h2)}: {msg}",
+                                    "case": {"profile_history": [list(o) for o in h2]}})
+                w2, p2, r2 = build(hist)
+                apply(w2, p2, r2, op, bad)
+                transitions += 1
+                key = (observe(w2, p2),
+                       tuple(sorted((k, tuple(v)) for k, v in r2.items())))
+                if key not in seen:
+                    seen.add(key)
+                    nxt.append(h2)
+                    w3, p3, r3 = build(h2)
+                    try:
+                        for pn in list(r3):
+                            w3.evict_profile(p3[pn][0])
+                    except Exception as e:  # noqa: B902
+                        bad("drain.raises", f"evicting everything raised "
+                                            f"{type(e).__name__}")
+                    else:
+                        for n, i, q in WORKERS[wn]:
+                            av = w3.resources.get_available_quantity(Resource(n, i))
+                            if av != q:
+                                bad("drain.not_restored",
+                                    f"{n}:{i}: {av} of {q} after evicting everything")
+        frontier = nxt
+    return {"states": len(seen), "transitions": transitions, "validated": transitions,
+            "evaluations": transitions, "stats": stats, "violations": out,
+            "distinct": [hash(k) for k in seen],
+            "samples": [{"profiles_bfs_depth": depth, "states": len(seen)}]}
+
+
 # ----------------------------------------------------------------------- Resources
 def resources_job(item, tier):
     """BFS on a bare Resources object: allocate / allocate_multiple / deallocate /
@@ -858,6 +1037,8 @@ def job(item, tier):
         return resources_job(item, tier)
     if item[0] == "worker":
         return worker_job(item, tier)
+    if item[0] == "profiles":
+        return profiles_job(item, tier)
     if item[0] == "case":
         return case_job(item[1], tier)
 
@@ -877,6 +1058,9 @@ def case_job(case, tier):
         for tg in range(len(w.pools)):
             check_against_reference(w, tg, r[tg], bad, hist)
         drain_check(hist, bad)
+    elif "profile_history" in case:
+        r = profiles_job(("profiles", len(case["profile_history"])), tier)
+        out = r["violations"]
     elif "worker_history" in case:
         r = worker_job(("worker", case["worker"], len(case["worker_history"])), tier)
         out = r["violations"]
@@ -924,6 +1108,7 @@ def items(tier):
         it.append(("bfs", "batch", [list(f)], batch_depth))
     for wn in WORKERS:
         it.append(("worker", wn, 4 if tier == "quick" else 5))
+    it.append(("profiles", 6 if tier == "quick" else 8))
     it.append(("resources", 4 if tier == "quick" else 5, "a1b1g1"))
     it.append(("resources", 4 if tier == "quick" else 5, "a2b1g1"))
     return it
@@ -935,6 +1120,7 @@ def main(tier, seed):
         rule="BFS over all operation histories (place / place-in-batch / remove / load / "
              "evict / step / copy / deepcopy on a 2-worker pool with several ids of one "
              "type; place / remove on a bare Worker without the pool's admission test; "
+             "load / evict / step over three work profiles on a bare Worker; "
              "allocate / allocate_multiple / deallocate / copy on bare Resources) "
              "to the stated depth, partitioned on the first operation; states "
              "de-duplicated on all public getter values",
@@ -945,7 +1131,9 @@ def main(tier, seed):
                      ((4, 6) if tier == "quick" else (5, 8))],
         required_stats=("refusals", "accepted_places", "copies", "batch_places",
                         "res_refusals", "worker_refusals", "worker_accepts",
-                        "worker_batch_joins"), chunk=1,
+                        "worker_batch_joins", "profile_loads",
+                        "profile_evictions_while_pending",
+                        "profile_simultaneous_completions"), chunk=1,
         budget_s=280 if tier == "quick" else 3000, confirm_job=confirm_job)
 
 
